@@ -30,6 +30,9 @@ type ClashCase struct {
 	Taken      bool   `json:"taken"`      // contender 0 is pushed before the others start
 	Concurrent bool   `json:"concurrent"` // the remaining contenders push at the same time
 	Slow       int    `json:"slow"`       // this contender's reader stalls in its first Read
+	// Bad: 1 + index of a contender whose reader delivers other bytes than its
+	// descriptor names (its push must fail and must not cost anybody the name); 0 = none
+	Bad int `json:"bad,omitempty"`
 }
 
 func genClash(t *rapid.T) ClashCase {
@@ -41,6 +44,14 @@ func genClash(t *rapid.T) ClashCase {
 	c.Taken = rapid.Bool().Draw(t, "taken")
 	c.Concurrent = rapid.IntRange(0, 3).Draw(t, "concurrent") != 0
 	c.Slow = rapid.IntRange(0, k-1).Draw(t, "slow")
+	if rapid.IntRange(0, 2).Draw(t, "withBad") == 1 {
+		lo := 0
+		if c.Taken {
+			lo = 1
+		}
+		c.Bad = 1 + rapid.IntRange(lo, k-1).Draw(t, "bad")
+		c.Slow = c.Bad - 1 // it is still being written when the others arrive
+	}
 	return c
 }
 
@@ -61,6 +72,14 @@ func runClash(c ClashCase) (res vt.Result, fail *vt.Fail) {
 		descs[i] = ocispec.Descriptor{MediaType: "application/octet-stream", Digest: digest.FromBytes(data[i]), Size: int64(len(data[i])),
 			Annotations: map[string]string{ocispec.AnnotationTitle: c.Title}}
 	}
+	sent := make([][]byte, k) // what each contender's reader delivers
+	for i := range data {
+		sent[i] = data[i]
+		if c.Bad == i+1 {
+			sent[i] = append([]byte(nil), data[i]...)
+			sent[i][len(sent[i])-1] ^= 0x20
+		}
+	}
 	errs := make([]error, k)
 	first := 0
 	if c.Taken {
@@ -77,7 +96,7 @@ func runClash(c ClashCase) (res vt.Result, fail *vt.Fail) {
 			wg.Add(1)
 			go func(i int) {
 				defer wg.Done()
-				var rd io.Reader = bytes.NewReader(data[i])
+				var rd io.Reader = bytes.NewReader(sent[i])
 				if i == c.Slow || k-first > 2 {
 					rd = &gateReader{r: rd, g: gt}
 				}
@@ -87,13 +106,22 @@ func runClash(c ClashCase) (res vt.Result, fail *vt.Fail) {
 		wg.Wait()
 	} else {
 		for i := first; i < k; i++ {
-			errs[i] = s.Push(ctx, descs[i], bytes.NewReader(data[i]))
+			errs[i] = s.Push(ctx, descs[i], bytes.NewReader(sent[i]))
 		}
 	}
 	res.NonTrivial = true
 	res.Classes = append(res.Classes, fmt.Sprintf("contenders-%d", k), fmt.Sprintf("concurrent-%v", c.Concurrent), fmt.Sprintf("name-taken-before-%v", c.Taken))
+	if c.Bad > 0 {
+		res.Classes = append(res.Classes, "one-contender-delivers-corrupt-content")
+	}
 	winners := []int{}
 	for i, e := range errs {
+		if c.Bad == i+1 {
+			if e == nil {
+				return res, vt.Failf("C06/push-result", "contender %d delivered bytes that do not match its descriptor, Push returned nil", i)
+			}
+			continue // whatever it failed with
+		}
 		switch {
 		case e == nil:
 			winners = append(winners, i)
@@ -101,6 +129,9 @@ func runClash(c ClashCase) (res vt.Result, fail *vt.Fail) {
 		default:
 			return res, vt.Failf("C06/push-result", "push of contender %d for name %q returned %v (expected nil or duplicate-name)", i, c.Title, e)
 		}
+	}
+	if c.Bad > 0 && k == 1+boolInt(c.Taken && c.Bad != 1) && len(winners) == 0 {
+		return res, nil
 	}
 	if len(winners) != 1 {
 		return res, vt.Failf("C06/name-claimed-by-several", "%d pushes of different content under the name %q returned nil (contenders %d, taken before: %v): %v", len(winners), c.Title, k, c.Taken, winners)
@@ -133,4 +164,11 @@ func runClash(c ClashCase) (res vt.Result, fail *vt.Fail) {
 		return res, vt.Failf("C06/file-content-mismatch", "file %q holds %d bytes (err %v), the accepted contender %d has %d bytes; equal=%v", c.Title, len(onDisk), rerr, w, len(data[w]), bytes.Equal(onDisk, data[w]))
 	}
 	return res, nil
+}
+
+func boolInt(b bool) int {
+	if b {
+		return 1
+	}
+	return 0
 }
